@@ -43,7 +43,7 @@ _Val.declare('VY', ('y', z3.StringSort()))  # bytes (code points 0..255)
 Val = _Val.create()
 
 TAGS = ('none', 'bool', 'int', 'float', 'str', 'ref', 'type', 'enum', 'fn', 'bytes')
-TYPE_IDS = {'int': 1, 'float': 2, 'str': 3, 'bool': 4, 'bytes': 5, 'list': 6, 'tuple': 7, 'dict': 8, 'set': 9, 'object': 10}
+TYPE_IDS = {'int': 1, 'float': 2, 'str': 3, 'bool': 4, 'bytes': 5, 'list': 6, 'tuple': 7, 'dict': 8, 'set': 9, 'object': 10, 'NoneType': 11}
 RECOG = {'none': 'is_VN', 'bool': 'is_VB', 'int': 'is_VI', 'float': 'is_VF', 'str': 'is_VS', 'ref': 'is_VR', 'type': 'is_VT', 'enum': 'is_VE', 'fn': 'is_VC', 'bytes': 'is_VY'}
 
 
